@@ -222,7 +222,7 @@ func init() {
 				pqengine.Op{Kind: "event", N: 50, Seed: 4}, pqengine.Op{Kind: "event", N: ps + 7, Seed: 5}, pqengine.Op{Kind: "event", N: 3, Seed: 6},
 				pqengine.Op{Kind: "flush"}, pqengine.Op{Kind: "reopen"}, pqengine.Op{Kind: "event", N: 9, Seed: 7}, pqengine.Op{Kind: "flush"})
 			done := false
-			runPQHistory(rep, cfg, ops, int64(900+i), "", nil, func(e *pqengine.Engine) {
+			runPQHistory(rep, cfg, ops, int64(900+i), "", pqWriterK1Setup(rep, m), func(e *pqengine.Engine) {
 				if !done {
 					done = true
 					pqStreamK1(rep, m, e, "end of directed history")
@@ -246,7 +246,7 @@ func init() {
 			ops := pqengine.History(hr, prof)
 			k1 := rand.New(rand.NewSource(hseed + 1))
 			first := true
-			e := runPQHistory(rep, cfg, ops, hseed, "", nil, func(e *pqengine.Engine) {
+			e := runPQHistory(rep, cfg, ops, hseed, "", pqWriterK1Setup(rep, m), func(e *pqengine.Engine) {
 				if first { // not while shrinking
 					first = false
 					pqStreamK1(rep, m, e, "end of history")
